@@ -56,6 +56,26 @@ type Rec struct {
 	Roots []RootObs `json:"roots"`
 	St    StoreObs  `json:"st"`
 	Cfg   RecCfg    `json:"cfg"`
+	Mode  string    `json:"mode"`  // commit kind
+	Calls []CallObs `json:"calls"` // ledger write calls issued by this event, in order
+	Cold  []RootObs `json:"cold"`  // commit events: the roots as reconstructed by a brand-new storage from the registers alone
+	Regs  []RegObs  `json:"regs"`  // commit / run-end events: every register (canonical id, short hash, length)
+	Known bool      `json:"known"` // Load: cold holds the roots observed from the registers at the last successful commit
+}
+
+type CallObs struct {
+	Op    string `json:"op"`
+	ID    int    `json:"id"`
+	Owner int    `json:"owner"`
+	Index int    `json:"index"`
+	OK    bool   `json:"ok"`
+}
+
+type RegObs struct {
+	Key string `json:"key"` // raw identifier (stable across runs)
+	ID  int    `json:"id"`
+	Sum string `json:"sum"`
+	Len int    `json:"len"`
 }
 
 func (w *World) cfg() RecCfg {
@@ -109,7 +129,25 @@ func (w *World) rec(t int, ev string, op Op, res Res) Rec {
 		v := h.Dig.Vec(op.K.ID)
 		kd = []int{int(v[0]), int(v[1]), int(v[2]), int(v[3])}
 	}
-	return Rec{T: t, Ev: ev, H: op.H, I: op.I, J: op.J, E: op.E, K: op.K, Kd: kd, Ti: op.Ti, Res: res, Roots: roots, St: st, Cfg: w.cfg()}
+	r := Rec{T: t, Ev: ev, H: op.H, I: op.I, J: op.J, E: op.E, K: op.K, Kd: kd, Ti: op.Ti, Res: res, Roots: roots, St: st, Cfg: w.cfg(),
+		Mode: op.Mode, Calls: []CallObs{}, Cold: []RootObs{}, Regs: []RegObs{}}
+	if w.lastCalls != nil {
+		r.Calls = w.lastCalls
+		w.lastCalls = nil
+	}
+	if ev == "Commit" || ev == "RunEnd" {
+		r.Regs = w.RegObs()
+		if res.Class == "ok" {
+			r.Cold = w.ColdObserve()
+			w.committedRoots, w.commitKnown = r.Cold, true
+		} else {
+			w.commitKnown = false
+		}
+	}
+	if ev == "Load" && w.commitKnown {
+		r.Cold, r.Known = w.committedRoots, true
+	}
+	return r
 }
 
 func resOf(err error) Res {
@@ -266,6 +304,36 @@ func (w *World) Exec(op Op) (string, Res) {
 		r.N = int(h.Arr.Count())
 		r.Rid = w.cid(h.Arr.SlabID())
 		return "ASetType", r
+	case "commit":
+		start := len(w.Ledger.Calls)
+		w.Ledger.SetFaultPlan(op.Fail...)
+		wk := op.W
+		if wk <= 0 {
+			wk = w.Workers
+		}
+		var err error
+		if op.Mode == "nondet" {
+			err = w.St.NondeterministicFastCommit(wk)
+		} else {
+			err = w.St.FastCommit(wk)
+		}
+		w.Ledger.SetFaultPlan()
+		w.lastCalls = []CallObs{}
+		for _, c := range w.Ledger.Calls[start:] {
+			w.lastCalls = append(w.lastCalls, CallObs{Op: c.Op, ID: w.cid(c.ID), Owner: int(c.ID.AddressAsUint64()), Index: int(c.ID.IndexAsUint64()), OK: c.OK})
+		}
+		if err == nil {
+			w.pendingColdRefresh = true
+		} else {
+			w.commitKnown = false
+		}
+		return "Commit", resOf(err)
+	case "dropcache":
+		w.St.DropCache()
+		return "DropCache", resOf(nil)
+	case "crash":
+		// abandon the in-memory storage; open a brand-new one over the ledger and reopen every root by its identifier
+		return "Crash", w.Reopen()
 	case "new_map":
 		dig := &TableDigesterBuilder{Table: w.DigTable, Default: w.DigDefault}
 		m, err := atree.NewMap(w.St, w.Addr, dig, testutils.NewSimpleTypeInfo(uint64(op.Ti)))
@@ -381,6 +449,25 @@ func parseTupleOp(raw json.RawMessage, handle string) Op {
 		return Op{Op: "mpop", H: handle}
 	case "msettype":
 		return Op{Op: "msettype", H: handle, Ti: num(1)}
+	case "commit": // mode, workers, failing call position (0 = none)
+		op := Op{Op: "commit", Mode: t[1].(string), W: num(2)}
+		if len(t) > 3 && num(3) > 0 {
+			op.Fail = []int{num(3)}
+		}
+		return op
+	case "dropcache":
+		return Op{Op: "dropcache"}
+	case "crash":
+		return Op{Op: "crash"}
 	}
 	panic(fmt.Sprintf("unknown tuple op %v", t))
+}
+
+// ExecSilent runs an operation without recording it, keeping the committed snapshot up to date.
+func (w *World) ExecSilent(op Op) {
+	ev, res := w.Exec(op)
+	w.lastCalls = nil
+	if ev == "Commit" && res.Class == "ok" {
+		w.committedRoots, w.commitKnown = w.ColdObserve(), true
+	}
 }
